@@ -113,6 +113,9 @@ type Master struct {
 	// best effort); default false = the error reply of a live executor without that task.
 	LostIsSilent bool
 	lostExec     map[string]bool
+	// tasks lost while the framework was not connected (LoseWhileDisconnected): the implicit
+	// reconciliation after the resubscription is the only way the framework learns about them
+	reconLost map[string]bool
 }
 
 // NewMaster creates a master with the given agents.
@@ -229,6 +232,16 @@ func (m *Master) call(ctx context.Context, c *scheduler.Call) (mesos.Response, e
 		if m.Reconcile {
 			for _, id := range m.TaskOrder {
 				t := m.Tasks[id]
+				if m.reconLost[id] {
+					// the master no longer has the task's agent: TASK_LOST, reason RECONCILIATION (answered once)
+					delete(m.reconLost, id)
+					r, st := mesos.REASON_RECONCILIATION, mesos.TASK_LOST
+					msg := "agent removed while the framework was disconnected"
+					m.push(&scheduler.Event{Type: scheduler.Event_UPDATE, Update: &scheduler.Event_Update{Status: mesos.TaskStatus{
+						TaskID: mesos.TaskID{Value: t.ID}, State: &st, AgentID: &mesos.AgentID{Value: t.AgentID},
+						ExecutorID: &mesos.ExecutorID{Value: t.ExecutorID}, Reason: &r, Message: &msg, Source: mesos.SOURCE_MASTER.Enum()}}})
+					continue
+				}
 				if t.Alive {
 					r := mesos.REASON_RECONCILIATION
 					m.push(&scheduler.Event{Type: scheduler.Event_UPDATE, Update: &scheduler.Event_Update{Status: mesos.TaskStatus{
@@ -540,6 +553,23 @@ func (m *Master) FailTask(t *SimTask, st mesos.TaskState) {
 	t.Alive = false
 	t.State = "DONE"
 	m.status(t, st, "task terminated on its own")
+}
+
+// LoseWhileDisconnected: the subscription is dropped, and while the framework is away the task is lost
+// with its agent (no status update can be delivered). When the framework resubscribes and reconciles,
+// the master answers TASK_LOST with REASON_RECONCILIATION for it - the only notification there will be.
+func (m *Master) LoseWhileDisconnected(t *SimTask) {
+	if !t.Alive {
+		return
+	}
+	m.Drop()
+	t.Alive = false
+	t.State = "DONE"
+	t.MesosState = mesos.TASK_LOST
+	if m.reconLost == nil {
+		m.reconLost = map[string]bool{}
+	}
+	m.reconLost[t.ID] = true
 }
 
 // FailExecutor reports the loss of an executor (FAILURE event).
